@@ -1253,7 +1253,24 @@ def subchecks(tier):
     if not q:
         order_cases = st.one_of(order_cases, order_cases, order_cases,
                                 case_strategy(s_sizes, True, "order"))
+    # cheap sub-checks first: the runner serves jobs in this order and stops
+    # generating when the tier's wall budget (BUDGET_S) is used up
     return [
+        Sub("textbook_nosimplify", case_strategy(ns_sizes, False),
+            make_test_textbook(tier), 48 if q else 2000,
+            generic=[fixed(G3, False, DIRECT_FIRST),
+                     fixed(G3, False, UDDD_FIRST),
+                     fixed(G4, False, UDDD_FIRST),
+                     fixed(G4T, False, DIRECT_FIRST),
+                     fixed(G3R, False, DIRECT_FIRST),
+                     fixed(G2, False, UDDD_FIRST)],
+            shards=8 if q else 16, shrink_quick=False, max_rounds=4),
+        Sub("order_indep", order_cases, make_test_pair(tier, "order"),
+            32 if q else 1000,
+            generic=[fixed(G3, False, DIRECT_FIRST, order2=UDDD_FIRST),
+                     fixed(G2, True, DIRECT_FIRST[:2],
+                           order2=UDDD_FIRST[:6])],
+            shards=8 if q else 16, shrink_quick=False, max_rounds=3),
         Sub("textbook_simplify", case_strategy(s_sizes, True),
             make_test_textbook(tier), 12 if q else 160,
             generic=[fixed(G2, True, ["Ricci_down", "Riemann_down",
@@ -1263,25 +1280,10 @@ def subchecks(tier):
                                       "Ricci_down", "Einstein_down"]),
                      fixed(G3S, True, DIRECT_FIRST[:4]),
                      fixed(G3D, True, UDDD_FIRST)],
-            shards=4 if q else 16, shrink_quick=False,
-            max_rounds=2 if q else 4),
-        Sub("textbook_nosimplify", case_strategy(ns_sizes, False),
-            make_test_textbook(tier), 48 if q else 2000,
-            generic=[fixed(G3, False, DIRECT_FIRST),
-                     fixed(G3, False, UDDD_FIRST),
-                     fixed(G4, False, UDDD_FIRST),
-                     fixed(G4T, False, DIRECT_FIRST),
-                     fixed(G2, False, UDDD_FIRST)],
-            shards=8 if q else 16, shrink_quick=False, max_rounds=6),
+            shards=4 if q else 16, shrink_quick=False, max_rounds=2),
         Sub("simplify_indep", case_strategy(s_sizes, True),
             make_test_pair(tier, "simplify"), 8 if q else 96,
             generic=[fixed(G2, True, UDDD_FIRST[:7]),
                      fixed(G3D, True, DIRECT_FIRST[:2])],
-            shards=4 if q else 16, shrink_quick=False, max_rounds=3),
-        Sub("order_indep", order_cases, make_test_pair(tier, "order"),
-            32 if q else 1000,
-            generic=[fixed(G3, False, DIRECT_FIRST, order2=UDDD_FIRST),
-                     fixed(G2, True, DIRECT_FIRST[:2],
-                           order2=UDDD_FIRST[:6])],
-            shards=8 if q else 16, shrink_quick=False, max_rounds=4),
+            shards=4 if q else 16, shrink_quick=False, max_rounds=2),
     ]
